@@ -28,6 +28,7 @@ type OrderInfo struct {
 	HadMeta       bool
 	Timeout       uint64
 	StoreTxSigner string
+	TimedOut      map[string]bool // providers that were assigned a shard of this order and timed out on it
 	SignerDid     string // DID whose key signed the (intact) request that created the order
 	ExcessAtStore map[string]int64 // per provider: used capacity beyond its stored shards just before the order was created
 }
@@ -163,6 +164,12 @@ func (trackOracle) Step(e *Env, si *StepInfo) {
 			}
 			if oi := t.Orders[sh.OrderId]; oi != nil {
 				oi.Providers[sh.Sp] = true
+				if sh.Status == ordertypes.ShardTimeout {
+					if oi.TimedOut == nil {
+						oi.TimedOut = map[string]bool{}
+					}
+					oi.TimedOut[sh.Sp] = true
+				}
 			}
 			ps, had := prev.Order.Shards[sid]
 			if sh.Status == ordertypes.ShardCompleted && (!had || ps.Status != ordertypes.ShardCompleted) {
